@@ -1,6 +1,7 @@
 package main
 
 import (
+	"github.com/klev-dev/klevdb/pkg/index"
 	"bytes"
 	"bufio"
 	"errors"
@@ -493,6 +494,8 @@ func runConc(a []string) {
 			fmt.Fprintln(out, "=", concPause(dir, f[1:]))
 		case "cstress":
 			fmt.Fprintln(out, "=", concStress(dir, int(atoi(f[1])), int(atoi(f[2]))))
+		case "creindex":
+			fmt.Fprintln(out, "=", concReindex(dir, int(atoi(f[1]))))
 		case "cquerystress":
 			fmt.Fprintln(out, "=", concQueryStress(dir, int(atoi(f[1])), int(atoi(f[2]))))
 		case "cgcstress":
@@ -854,6 +857,116 @@ func concQueryStress(dir string, iters, ms int) string {
 		}
 	}
 	return fmt.Sprintf("ok ops=%d linearizable (query stress: no call failed)", iters)
+}
+
+// creindex <iterations>: the first use of segments whose index files are missing, by several goroutines at once (every one
+// of them finds the index unloaded and the file absent): all index files are removed from a closed multi-segment log, it
+// is reopened (read-write or read-only), eight goroutines start their first queries together; none may fail, the answers
+// must be right, and after Close every segment must pass Check (the rebuilt index files are the derived ones).
+func concReindex(dir string, iters int) string {
+	for it := 0; it < iters; it++ {
+		os.RemoveAll(dir)
+		os.MkdirAll(dir, 0700)
+		o := klevdb.Options{KeyIndex: it%2 == 0, TimeIndex: it%3 != 0, Rollover: 300}
+		if it%4 == 3 {
+			o.Version.NewSegmentsVersion = klevdb.V1
+		}
+		l, err := klevdb.Open(dir, o)
+		if err != nil {
+			return "err open " + errClass(err)
+		}
+		const total = 48
+		for i := 0; i < total; i++ {
+			if _, err := l.Publish([]klevdb.Message{{Time: utime(int64(1000 + i)), Key: []byte(fmt.Sprintf("k%d", i%5)), Value: []byte(fmt.Sprintf("value-%04d", i))}}); err != nil {
+				l.Close()
+				return "err CallFailed Publish: " + err.Error()
+			}
+		}
+		if err := l.Close(); err != nil {
+			return "err CallFailed Close: " + err.Error()
+		}
+		segs := listSegs(dir)
+		for _, sg := range segs {
+			os.Remove(sg.Index)
+		}
+		o.Readonly = it%2 == 1
+		l, err = klevdb.Open(dir, o)
+		if err != nil {
+			return "err CallFailed reopen without index files: " + err.Error()
+		}
+		start := make(chan struct{})
+		res := make(chan string, 8)
+		for g := 0; g < 8; g++ {
+			go func(g int) {
+				<-start
+				// two goroutines per region of the log, so that the same segments are first touched twice at once
+				off := int64((g / 2) * 12)
+				for k := 0; k < 3; k++ {
+					next, ms, err := l.Consume(off, 4)
+					if err != nil {
+						res <- fmt.Sprintf("Consume(%d): %s: %s", off, errClass(err), err.Error())
+						return
+					}
+					for j, m := range ms {
+						if m.Offset != off+int64(j) || string(m.Value) != fmt.Sprintf("value-%04d", m.Offset) {
+							res <- fmt.Sprintf("Consume(%d) returned offset %d value %s", off, m.Offset, m.Value)
+							return
+						}
+					}
+					off = next
+				}
+				if m, err := l.Get(int64(g * 6)); err != nil || string(m.Value) != fmt.Sprintf("value-%04d", g*6) {
+					res <- fmt.Sprintf("Get(%d): %v", g*6, err)
+					return
+				}
+				if o.KeyIndex {
+					if _, err := l.GetByKey([]byte(fmt.Sprintf("k%d", g%5))); err != nil {
+						res <- fmt.Sprintf("GetByKey: %s: %s", errClass(err), err.Error())
+						return
+					}
+				}
+				if o.TimeIndex {
+					if m, err := l.GetByTime(utime(int64(1000 + g*5))); err != nil || m.Offset != int64(g*5) {
+						res <- fmt.Sprintf("GetByTime(%d): offset %d, %v", 1000+g*5, m.Offset, err)
+						return
+					}
+				}
+				if _, err := l.Stat(); err != nil {
+					res <- "Stat: " + errClass(err) + ": " + err.Error()
+					return
+				}
+				res <- ""
+			}(g)
+		}
+		close(start)
+		first := ""
+		for g := 0; g < 8; g++ {
+			select {
+			case r := <-res:
+				if first == "" {
+					first = r
+				}
+			case <-time.After(20 * time.Second):
+				return fmt.Sprintf("err CallFailed iteration=%d Hang: a first query has not returned for 20 s", it)
+			}
+		}
+		if err := l.Close(); err != nil && first == "" {
+			first = "Close: " + err.Error()
+		}
+		if first == "" {
+			p := index.Params{Times: o.TimeIndex, Keys: o.KeyIndex}
+			for _, sg := range listSegs(dir) {
+				if err := sg.Check(p); err != nil {
+					first = fmt.Sprintf("after Close segment %d does not pass Check: %s", sg.Offset, err.Error())
+					break
+				}
+			}
+		}
+		if first != "" {
+			return fmt.Sprintf("err CallFailed iteration=%d (readonly=%v) %s", it, o.Readonly, strings.ReplaceAll(first, "\n", " "))
+		}
+	}
+	return fmt.Sprintf("ok ops=%d linearizable (first use without index files: no call failed)", iters)
 }
 
 // cpollstress <iterations> <ms>: tailing consumers - one goroutine publishes batches of 1..3 messages, six poll
